@@ -30,6 +30,8 @@ pub const FILE_NAMES: &[&str] = &[
     "日本/語.c",
     "a,b.c",
     "C:\\win\\p.c",
+    "src/notes.txt ",
+    " lead/tab.c\t",
 ];
 pub const FN_NAMES: &[&str] = &[
     "main",
@@ -45,6 +47,8 @@ pub const FN_NAMES: &[&str] = &[
     "2,init",
     "12",
     "0,0,x",
+    "operator ",
+    " lead\t",
 ];
 const OTHERS: &[&str] = &[
     "LF:3",
